@@ -93,17 +93,18 @@ Inductive radix_prefix : list N -> N -> Prop :=
 | RP_oct c : c = 111 \/ c = 79 -> radix_prefix [48; c] 8
 | RP_hex c : c = 120 \/ c = 88 -> radix_prefix [48; c] 16.
 
-(** [l] splits as an optional base prefix, a non-empty body of digits and separators of that
-    radix, and the rest; [v] is the value of the body's digits *)
+(** [l] splits as an optional base prefix, a body of digits and separators of that radix with at
+    least one digit, and the rest; [v] is the value of the body's digits *)
 Definition int_literal (l : list N) (v : N) (rest : list N) : Prop :=
   exists pre r body,
-    l = pre ++ body ++ rest /\ radix_prefix pre r /\ body <> [] /\ Forall (char_ok r) body /\
-    v = horner r 0 (digits_of r body) /\ run_stops r rest.
+    l = pre ++ body ++ rest /\ radix_prefix pre r /\ digits_of r body <> [] /\
+    Forall (char_ok r) body /\ v = horner r 0 (digits_of r body) /\ run_stops r rest.
 
 Lemma lex_prefixed_ok : forall r p l t rest,
   1 <= r -> lex_prefixed r p l = NOk t rest ->
   exists c body v,
-    l = 48 :: c :: body ++ rest /\ (c = p \/ c = p - 32) /\ body <> [] /\ Forall (char_ok r) body /\
+    l = 48 :: c :: body ++ rest /\ (c = p \/ c = p - 32) /\ digits_of r body <> [] /\
+    Forall (char_ok r) body /\
     t = TInt v /\ v = horner r 0 (digits_of r body) /\ v < two64 /\ run_stops r rest.
 Proof.
   intros r p l t rest Hr H. unfold lex_prefixed in H.
@@ -111,14 +112,14 @@ Proof.
   destruct ((c0 =? c_0) && ((c1 =? p) || (c1 =? p - 32))) eqn:Hp; [|discriminate].
   apply andb_true_iff in Hp as [H0 H1]. apply N.eqb_eq in H0. subst c0.
   destruct (run r tl) as [[ds k] rest'] eqn:Hrun.
-  destruct (k =? 0) eqn:Hk; [discriminate|]. apply N.eqb_neq in Hk.
-  destruct (acc_u64 r 0 ds) as [v|] eqn:Hacc; [|discriminate]. injection H as <- <-.
-  destruct (run_spec _ _ _ _ _ Hrun) as (body & -> & Hlen & Hall & -> & Hstop).
+  destruct ds as [|d0 ds']; [discriminate|].
+  destruct (acc_u64 r 0 (d0 :: ds')) as [v|] eqn:Hacc; [|discriminate]. injection H as <- <-.
+  destruct (run_spec _ _ _ _ _ Hrun) as (body & -> & Hlen & Hall & Hds & Hstop).
   assert (H0lt : 0 < two64) by reflexivity.
   destruct (acc_u64_some _ _ _ _ H0lt Hacc) as [Hv Hlt].
-  exists c1, body, v. repeat split; try assumption.
+  exists c1, body, v. rewrite <- Hds. repeat split; try assumption.
   - apply orb_true_iff in H1 as [H1|H1]; apply N.eqb_eq in H1; [now left | now right].
-  - intros ->. cbn [length] in Hlen. lia.
+  - discriminate.
 Qed.
 
 Lemma lex_prefixed_shape : forall r p l,
@@ -128,8 +129,8 @@ Proof.
   intros r p l. unfold lex_prefixed.
   destruct l as [|c0 [|c1 tl]]; try (now left).
   destruct ((c0 =? c_0) && ((c1 =? p) || (c1 =? p - 32))); [|now left].
-  destruct (run r tl) as [[ds k] rest']. destruct (k =? 0); [right; now left|].
-  destruct (acc_u64 r 0 ds) as [v|]; [|right; now left]. right. right. now exists v, rest'.
+  destruct (run r tl) as [[ds k] rest']. destruct ds as [|d0 ds']; [right; now left|].
+  destruct (acc_u64 r 0 (d0 :: ds')) as [v|]; [|right; now left]. right. right. now exists v, rest'.
 Qed.
 
 (** [lex_float] yields a float token or a hard failure, never an integer and never a recoverable
@@ -138,39 +139,11 @@ Lemma lex_float_shape : forall l,
   lex_float l = NFail \/ exists m e rest, lex_float l = NOk (TFloat m e) rest.
 Proof.
   intro l. unfold lex_float.
-  destruct (run 10 l) as [[ids ik] r1].
-  destruct r1 as [|c t].
-  - destruct (N.of_nat (length ids) + N.of_nat (length (@nil N)) =? 0); [now left|].
-    cbn [andb]. cbv iota.
-    destruct (float_overflows _ _); [now left | right; eauto].
-  - destruct (c =? c_DOT).
-    + destruct (run 10 t) as [[fds fk] r2].
-      destruct (N.of_nat (length ids) + N.of_nat (length fds) =? 0); [now left|].
-      destruct r2 as [|c2 t2].
-      * destruct (true && _).
-        -- destruct ids; [now left|]. destruct (float_overflows _ _); [now left | right; eauto].
-        -- destruct (float_overflows _ _); [now left | right; eauto].
-      * destruct (is_exp_char c2).
-        -- destruct t2 as [|s t'].
-           ++ cbn [run]. now left.
-           ++ destruct (s =? c_MINUS); [|destruct (s =? c_PLUS)].
-              all: match goal with |- context [run 10 ?x] => destruct (run 10 x) as [[eds ek] r3] end.
-              all: destruct eds as [|e0 eds]; [now left|].
-              all: destruct (true && _);
-                [destruct ids; [now left|]; destruct (float_overflows _ _); [now left | right; eauto]
-                |destruct (float_overflows _ _); [now left | right; eauto]].
-        -- destruct (true && _).
-           ++ destruct ids; [now left|]. destruct (float_overflows _ _); [now left | right; eauto].
-           ++ destruct (float_overflows _ _); [now left | right; eauto].
-    + destruct (N.of_nat (length ids) + N.of_nat (length (@nil N)) =? 0); [now left|].
-      destruct (is_exp_char c).
-      * destruct t as [|s t'].
-        -- cbn [run]. now left.
-        -- destruct (s =? c_MINUS); [|destruct (s =? c_PLUS)].
-           all: match goal with |- context [run 10 ?x] => destruct (run 10 x) as [[eds ek] r3] end.
-           all: destruct eds as [|e0 eds]; [now left|].
-           all: cbn [andb]; cbv iota; destruct (float_overflows _ _); [now left | right; eauto].
-      * cbn [andb]. cbv iota. destruct (float_overflows _ _); [now left | right; eauto].
+  repeat match goal with
+         | |- context [let '(_, _) := ?x in _] => destruct x
+         | |- context [match ?x with _ => _ end] => destruct x
+         | |- context [if ?x then _ else _] => destruct x
+         end; (now left) || (right; eauto).
 Qed.
 
 (** ** [lex_decimal] *)
@@ -261,7 +234,7 @@ Proof.
   destruct (lex_prefixed_shape 16 120 l) as [E3|[E3|(v3 & r3 & E3)]]; rewrite E3 in H; try discriminate.
   2:{ rewrite <- E3 in H. apply (Hpre 16 120); [lia| |exact H].
       intros c [->| ->]; apply RP_hex; auto. }
-  destruct (lex_decimal_int _ _ _ H) as (body & -> & Hne & Hall & Hv & Hlt & Hs & _ & _).
+  destruct (lex_decimal_int _ _ _ H) as (body & -> & Hne & Hall & Hv & Hlt & Hs & _ & Hdig).
   split; [|exact Hlt]. exists [], 10, body. repeat split; auto. constructor.
 Qed.
 
